@@ -282,7 +282,7 @@ def has_sqlx(case):
 class C11(Property):
     id = "C11"
     title = "Periodic/bulk/chunk executors run every added task exactly once"
-    quick_cases = 600
+    quick_cases = 400
     thorough_cases = 4000
     design_ref = "DESIGN.md §6/C11, §5/F6"
     level_text = ("Unbounded Rocq theorems over an interleaving model (LTS) of PeriodicalExecutor with the bulk/chunk "
